@@ -63,6 +63,79 @@ def items_text(items):
     return " ".join(out)
 
 
+META = {"PUSHDEPLOYADDRESS": "0", "PUSHSIZE": "1", "PUSHLIB": "2", "PUSHIMMUTABLE": "3", "PUSH data": "4", "PUSH [tag]": "5",
+        "PUSH [$]": "6", "PUSH #[$]": "7"}
+
+
+def normhex(v):
+    v = str(v).lower()
+    if v.startswith("0x"):
+        v = v[2:]
+    v = v.lstrip("0")
+    return v or "0"
+
+
+def forves_block(instrs):
+    """projected instructions -> [op, val] in the checker's input language (see spec/Forves.tla)"""
+    out = []
+    for i in instrs:
+        n, v = i["name"], i["value"]
+        if n == "PUSH0":
+            out.append({"op": "PUSH", "val": "0"})
+        elif n == "PUSH":
+            out.append({"op": "PUSH", "val": normhex(v)})
+        elif n in META:
+            out.append({"op": "META" + META[n], "val": normhex(v) if v != "" else "0"})
+        else:
+            out.append({"op": n, "val": ""})
+    return out
+
+
+def parse_rendered(text):
+    recs = []
+    if not text:
+        return recs
+    lines = text.split("\n")
+    i = 0
+    while i + 3 < len(lines) + 0 and i < len(lines):
+        if lines[i].strip() == "#" and i + 3 < len(lines) + 1:
+            tok = lambda l: [normhex(t) if t.lower().startswith("0x") else t for t in l.split()]
+            recs.append({"opt": tok(lines[i + 1]), "orig": tok(lines[i + 2]), "size": lines[i + 3].strip() if i + 3 < len(lines) else ""})
+            i += 4
+        else:
+            i += 1
+    return recs
+
+
+def run_forves(cases, tag="forves"):
+    if not cases:
+        return {}, {"states": 0, "transitions": 0}
+    shards = common.shard(cases, min(len(cases), common.NCPU))
+    envs = []
+    for i, sh in enumerate(shards):
+        pth = os.path.join(common.workdir(), "%s_%d.json" % (tag, i))
+        common.write_json(pth, {"cases": sh})
+        envs.append({"CASES": pth})
+    results = common.run_tlc_shards("Forves", "Forves.cfg", envs, timeout=1800, tag=tag)
+    verdicts, st = {}, {"states": 0, "transitions": 0}
+    for r, sh in zip(results, shards):
+        if not r.ok:
+            raise common.MachineryError("Forves TLC run failed:\n" + r.out[-2000:])
+        cons = r.tagged("CONSUMED")
+        if not cons or cons[0][1] != len(sh):
+            raise common.MachineryError("Forves did not consume every case")
+        st["states"] += r.distinct
+        st["transitions"] += r.generated
+        for t in r.tagged("VERDICT"):
+            verdicts[t[1]] = t[3]
+    return verdicts, st
+
+
+def plain_items(instrs):
+    """the text the tool passes to the adapter: AsmBlock.to_plain()"""
+    return " ".join((i["name"] + (" " + i["value"] if i["value"] != "" and "JUMP" not in i["name"] else "")) for i in instrs if i["name"] != "tag")
+
+
 def mutants_of(bases, tag="mut"):
     p = os.path.join(common.workdir(), "%s_bases.json" % tag)
     common.write_json(p, {"bases": [[tok_record(t) for t in b] for b in bases]})
@@ -155,7 +228,34 @@ def run(tier):
             c = {"id": len(cases) + 1, "orig": r["a"], "opt": r["b"], "a": cmd["a"], "b": cmd["b"], "mut": mi, "opts": [oname]}
             index[key] = c
             cases.append(c)
+    # external-checker adapter: the pairs of the first two option sets, rendered by the real adapter
+    fcases, fjobs = [], []
+    for oi, ((oname, argv), rs) in enumerate(zip(optsets[:2], res[:2])):
+        fcmds = []
+        for (kind, bi, mi), cmd, r in zip(meta, cmds, rs):
+            if r.get("killed") or "a" not in r or not isinstance(r.get("a"), list):
+                continue
+            pa, pb = plain_items(r["a"]), plain_items(r["b"])
+            fcmds.append({"cmd": "forves", "a": pa, "b": pb, "_a": r["a"], "_b": r["b"], "_storage": "-storage" in argv})
+        fcmds = corpus.sample(fcmds, 1500 if tier == "quick" else 20000, seed)
+        fjobs.append((argv, fcmds))
+    fres = pool.run_matrix([(argv, [{k: v for k, v in c.items() if not k.startswith("_")} for c in fc]) for argv, fc in fjobs], timeout=30)
+    fcnt = {"pairs": 0, "true": 0, "raised": 0, "other": 0}
+    for (argv, fc), rs in zip(fjobs, fres):
+        for c, r in zip(fc, rs):
+            if r.get("killed") or "verdict" not in r:
+                continue
+            fcnt["pairs"] += 1
+            fcnt["true" if r["verdict"] == "true" else "raised" if r["verdict"] == "raised" else "other"] += 1
+            fcases.append({"id": len(fcases) + 1, "verdict": r["verdict"], "rendered": parse_rendered(r.get("rendered")),
+                           "a": forves_block(c["_a"]), "b": forves_block(c["_b"]), "storage": c["_storage"], "_pa": c["a"], "_pb": c["b"]})
+    fverd, fst = run_forves([{k: v for k, v in c.items() if not k.startswith("_")} for c in fcases])
     verdicts, st = equiv.run_equiv(cases, 48 if tier == "quick" else 256, tag="c05", depthcheck=False)
+    st["states"] += fst["states"]
+    st["transitions"] += fst["transitions"]
+    for c in fcases:
+        if c["id"] in fverd:
+            viol.append(({"a": c["_pa"], "b": c["_pb"], "opt": "forves adapter", "clause": fverd[c["id"]]}, ("violates", "forves: " + fverd[c["id"]], 0)))
     undec = 0
     for c in cases:
         cl = equiv.classify(verdicts.get(c["id"], []))
@@ -168,6 +268,8 @@ def run(tier):
         ks = [c["a"] + " ~ " + c["b"]]
         if "exc" in c:
             ks.append("reflexivity-exception|" + c["exc"].split(":")[0])
+        if c.get("opt") == "forves adapter":
+            ks.append("forves|" + c.get("clause", ""))
         if findings.misaligned_overlap(c["a"]) or findings.misaligned_overlap(c["b"]):
             ks.append("misaligned-overlap")
         return ks
@@ -181,8 +283,8 @@ def run(tier):
            "evaluations": cnt["compared"], "distinct_nontrivial": len(cases),
            "rule": "one evaluation = one call of the real compare_asm_block_asm_format on (base, mutant) or (base, base); "
                    "non-trivial = mutant the checker called equal (then searched for a distinguishing state by TLC); distinct pairs",
-           "bases": len(bases), "mutants_enumerated": mr.distinct - len(bases), "mutants_driven": len(muts), "driver": cnt,
+           "forves_adapter": fcnt, "bases": len(bases), "mutants_enumerated": mr.distinct - len(bases), "mutants_driven": len(muts), "driver": cnt,
            "undecided": undec, "option_sets": [n for n, _ in optsets], "violating": len(viol), "exhaustive": False}
     return {"level": "model_checking", "coverage": cov, "violations": out, "wall": time.time() - t0,
             "assumptions": ["a mutant the checker accepts is a violation only if TLC finds a distinguishing grid state",
-                            "the external-checker adapter (forves) is exercised separately when bin/forves-checker exists; it does not in this tree"]}
+                            "the external-checker adapter is driven with a stand-in bin/forves-checker (always true) in a scratch project path; spec/Forves.tla re-reads the rendering"]}
